@@ -42,17 +42,22 @@ note_element = note | note_object
 
 prop = name + pp.Suppress(":") + string_literal
 
-table_element = _ + (
+# a column takes the comments directly above it itself, so they must not be skipped here
+table_element = (
     table_column.set_results_name('columns', list_all_matches=True) |
-    note_element('note') |
-    indexes.set_results_name('indexes', list_all_matches=True)
-) + _
-table_element_with_property = _ + (
+    _ + (
+        note_element('note') |
+        indexes.set_results_name('indexes', list_all_matches=True)
+    )
+)
+table_element_with_property = (
     table_column_with_properties.set_results_name('columns', list_all_matches=True) |
-    note_element('note') |
-    indexes.set_results_name('indexes', list_all_matches=True) |
-    prop.set_results_name('property', list_all_matches=True)
-) + _
+    _ + (
+        note_element('note') |
+        indexes.set_results_name('indexes', list_all_matches=True) |
+        prop.set_results_name('property', list_all_matches=True)
+    )
+)
 
 table_body = table_element[...]
 table_body_with_properties = table_element_with_property[...]
